@@ -3,7 +3,7 @@
 // adversarial) responder (component "requestor", properties C01 / C02 / C24 on the requestor side).
 //
 // Case header: case <id> dag=<seed>:<maxblocks> [mode=…]   (the DAG and selector are regenerated
-// from the seed with the shared generator)
+// from the seed with the shared generator; maxblocks 0 = the "fan" family of harness/dag/shapes.go)
 //
 //	lt <n> block:parent:path:vData:vSkip …   link tree + visit counts (model / oracle input; checked
 //	                                         against the regenerated DAG)                     -> "-"
@@ -77,10 +77,16 @@ type World struct {
 
 func NewWorld(seed int64, maxBlocks int) (*World, error) {
 	r := rand.New(rand.NewSource(seed))
-	o := dag.DefaultOpts()
-	o.MaxBlocks = maxBlocks
-	d := dag.Gen(r, o)
-	_, sel := dag.GenSelector(r)
+	var d *dag.DAG
+	var sel datamodel.Node
+	if maxBlocks == 0 { // the "fan" family: independent sub-DAGs below the root (harness/dag/shapes.go)
+		d, sel = dag.GenFan(r)
+	} else {
+		o := dag.DefaultOpts()
+		o.MaxBlocks = maxBlocks
+		d = dag.Gen(r, o)
+		_, sel = dag.GenSelector(r)
+	}
 	lt, vd, vs, err := dag.VisitTable(d, sel)
 	if err != nil {
 		return nil, err
@@ -539,7 +545,7 @@ func headerDag(hdr string) (int64, int, bool) {
 			}
 			s, e1 := strconv.ParseInt(f[0], 10, 64)
 			m, e2 := strconv.Atoi(f[1])
-			return s, m, e1 == nil && e2 == nil && m >= 1 && m <= 30
+			return s, m, e1 == nil && e2 == nil && m >= 0 && m <= 30
 		}
 	}
 	return 0, 0, false
@@ -774,10 +780,12 @@ func (o *oracle) responderStream(skip int) []expItem {
 	return out
 }
 
-// windowOverrun: among the first `skip` links of the responder's own traversal there is one that
-// lies beyond the prefix the requestor loaded locally (possible only if the responder lacks a block
-// of that prefix and therefore skipped part of it).  Decided from the case alone.
-func (o *oracle) windowOverrun() bool {
+// neededInWindow (known-finding input class skip-prefix-mismatch, decided from the case alone):
+// among the first `skip` links of the responder's OWN traversal there is one that lies beyond the
+// prefix the requestor loaded locally, that the responder holds, and whose block the requestor does
+// not hold — a block the requestor needs falls into the window it asked the responder to skip.
+// (Possible only if the responder lacks a block of that prefix and therefore skipped part of it.)
+func (o *oracle) neededInWindow() bool {
 	if o.prefix >= len(o.w.LT.Loads) {
 		return false
 	}
@@ -785,7 +793,27 @@ func (o *oracle) windowOverrun() bool {
 		if i >= o.prefix {
 			break
 		}
-		if e.node >= o.prefix {
+		if e.node >= o.prefix && e.present && !o.loc0[e.c] {
+			return true
+		}
+	}
+	return false
+}
+
+// prefixBlockResent (known-finding input class skip-prefix-mismatch-resend, decided from the case
+// alone): the responder's traversal attaches, beyond its skip window, a block that belongs to the
+// prefix the requestor loaded locally (it met that block only on a path outside the window because
+// it skipped the subtree in which the requestor had loaded it).
+func (o *oracle) prefixBlockResent() bool {
+	if o.prefix >= len(o.w.LT.Loads) {
+		return false
+	}
+	inPrefix := map[int]bool{}
+	for k := 0; k < o.prefix; k++ {
+		inPrefix[o.w.LT.Loads[k].Block] = true
+	}
+	for _, e := range o.responderStream(o.prefix) {
+		if e.block && inPrefix[e.c] {
 			return true
 		}
 	}
@@ -998,10 +1026,9 @@ func (o *oracle) finish(s *Sys) {
 	}
 	// known-finding input classes, decided from the case alone (not from what went wrong):
 	//   root-not-found-abort : the responder lacks the root block, which the requestor holds
-	//   skip-prefix-mismatch : the responder holds the root but lacks another block of the prefix
-	//                          the requestor loaded locally before it went to the network, and
-	//                          therefore the first `skip` links of ITS traversal reach beyond
-	//                          that prefix (windowOverrun)
+	//   skip-prefix-mismatch : a block the requestor needs (does not hold) is among the first
+	//                          `skip` links of the responder's own traversal, beyond the prefix
+	//                          the requestor loaded locally (neededInWindow)
 	cls := func(c string) string {
 		if covered || o.prefix == 0 {
 			return c
@@ -1009,7 +1036,7 @@ func (o *oracle) finish(s *Sys) {
 		if !o.rem[w.LT.Loads[0].Block] {
 			return "root-not-found-abort"
 		}
-		if lacksPref && o.windowOverrun() {
+		if o.neededInWindow() {
 			return "skip-prefix-mismatch"
 		}
 		return c
@@ -1159,10 +1186,63 @@ func mutate(r *rand.Rand, s []sitem, w *World) ([]sitem, []string) {
 	return s, notes
 }
 
+// twoGapStores: "local start over two subtrees the responder lacks": two different depth-1 links with
+// non-empty subtrees whose blocks the responder does not hold; the requestor holds everything the
+// traversal loads up to some node inside the SECOND of them (so its first miss lies below it), and —
+// usually — the blocks of what follows that subtree, so that the responder has more to say afterwards.
+func twoGapStores(r *rand.Rand, w *World) (map[int]bool, map[int]bool, bool) {
+	lt := w.LT.Loads
+	o := &oracle{w: w}
+	var cand []int
+	for i := 1; i < len(lt); i++ {
+		if lt[i].Depth == 1 && o.skipSubtree(i) > i+1 {
+			cand = append(cand, i)
+		}
+	}
+	if len(cand) < 2 {
+		return nil, nil, false
+	}
+	a := r.Intn(len(cand) - 1)
+	b := a + 1 + r.Intn(len(cand)-a-1)
+	i, j := cand[a], cand[b]
+	end := o.skipSubtree(j)
+	if lt[i].Block == lt[0].Block || lt[j].Block == lt[0].Block {
+		return nil, nil, false
+	}
+	rem := map[int]bool{}
+	for k := range w.D.Cids {
+		rem[k] = true
+	}
+	delete(rem, lt[i].Block)
+	delete(rem, lt[j].Block)
+	k := j + 1 + r.Intn(end-j-1) // first miss: a node strictly inside the second subtree
+	if k+1 < end && r.Intn(2) == 0 {
+		k++
+	}
+	loc := map[int]bool{}
+	for x := 0; x < k; x++ {
+		loc[lt[x].Block] = true
+	}
+	if r.Intn(4) != 0 { // the requestor also holds what comes after the second subtree
+		for x := end; x < len(lt); x++ {
+			if r.Intn(5) != 0 {
+				loc[lt[x].Block] = true
+			}
+		}
+	}
+	if loc[lt[k].Block] {
+		return nil, nil, false // the intended first miss is not a miss (shared block)
+	}
+	return loc, rem, true
+}
+
 func genCase(r *rand.Rand, wr *bufio.Writer, id string, adversarial bool) {
 	var w *World
 	var seed int64
 	mb := 3 + r.Intn(6)
+	if r.Intn(6) == 0 {
+		mb = 0 // fan family
+	}
 	for {
 		seed = r.Int63n(1 << 40)
 		var err error
@@ -1189,6 +1269,13 @@ func genCase(r *rand.Rand, wr *bufio.Writer, id string, adversarial bool) {
 		}
 		if r.Float64() < pr {
 			rem[i] = true
+		}
+	}
+	if r.Intn(5) == 0 || (mb == 0 && r.Intn(2) == 0) {
+		if l2, r2, ok := twoGapStores(r, w); ok {
+			loc, rem = l2, r2
+			pl = 1 // (skip the prefix construction below)
+			fmt.Fprintln(wr, "note twogap")
 		}
 	}
 	if pl == 0 && r.Intn(2) == 0 {
